@@ -12,7 +12,7 @@ func init() {
 	register(&Rule{ID: "Gstale", Text: gstaleText, Run: runGstale})
 }
 
-const gstaleText = `R1e check-then-act across critical sections. A local that was assigned, inside a critical section, from an expression reading a lock-guarded field (a length, an index, a position) is not used in a LATER critical section of the same lock as an index or slice bound of a guarded field: between the two sections other goroutines change the field, and the stale position drops, repeats or overruns their entries. (Using the sample in the section that took it, or re-sampling in the later section, is the accepted form.)`
+const gstaleText = `R1e check-then-act across critical sections. A local that was assigned, inside a critical section, from an expression reading a lock-guarded field (a length, an index, a position) is not used in a LATER critical section of the same lock as an index or slice bound of a guarded field: between the two sections other goroutines change the field, and the stale position drops, repeats or overruns their entries. (Using the sample in the section that took it, or re-sampling in the later section, is the accepted form.) Likewise a guarded field that was sampled into a local in one section is not written (assigned, element stored, deleted from, incremented) in a later section of the same lock that has not looked at the field again before the write.`
 
 func runGstale(c *Ctx) {
 	a := newAgg(c)
@@ -95,7 +95,83 @@ func runGstale(c *Ctx) {
 					return true
 				})
 			}
+			// fields sampled into a local, by field name: the section (acquire index) and lock of the sample
+			sampledF := map[string]sample{}
+			mentionsF := func(e ast.Expr, fr *core.Frame, f string) bool {
+				found := false
+				if e != nil {
+					ast.Inspect(e, func(x ast.Node) bool {
+						if ex, ok := x.(ast.Expr); ok {
+							if fv := fieldVar(ex, fr); fv != nil && core.FieldName(fv) == f {
+								found = true
+							}
+						}
+						return !found
+					})
+				}
+				return found
+			}
+			// the guarded field an event writes (assignment, element store, delete, ++/--)
+			writtenField := func(ev *core.Event) string {
+				switch ev.Kind {
+				case core.KAssign:
+					if !ev.FieldInit && ev.Var != nil && ev.Var.IsField() && core.LockKindOf(ev.Var.Type()) == core.NotLock {
+						return core.FieldName(ev.Var)
+					}
+				case core.KIncDec:
+					if fv := fieldVar(ev.Lhs, ev.Frame); fv != nil {
+						return core.FieldName(fv)
+					}
+				case core.KCall:
+					if ev.Builtin == "delete" && len(ev.Call.Args) > 0 {
+						if fv := fieldVar(ev.Call.Args[0], ev.Frame); fv != nil {
+							return core.FieldName(fv)
+						}
+					}
+				}
+				return ""
+			}
 			for i, ev := range p.Events {
+				// check-then-act split in two: a guarded field sampled into a local in one section is written in
+				// a later section of the same lock that has not looked at the field again before the write
+				if wf := writtenField(ev); wf != "" && g.sec[i] >= 0 {
+					if sm, has := sampledF[wf]; has && sm.sec != g.sec[i] && sm.lock == p.Events[g.sec[i]].Lock {
+						reread := false
+						for j := g.sec[i]; j < i; j++ {
+							b := p.Events[j]
+							for _, e := range []ast.Expr{b.Cond, b.Rhs} {
+								if mentionsF(e, b.Frame, wf) {
+									reread = true
+								}
+							}
+							if b.Call != nil && b.Builtin != "delete" {
+								for _, arg := range b.Call.Args {
+									if mentionsF(arg, b.Frame, wf) {
+										reread = true
+									}
+								}
+							}
+						}
+						if ev.Kind == core.KAssign && mentionsF(ev.Rhs, ev.Frame, wf) {
+							reread = true
+						}
+						a.note("R1e", name+"/write-decided-in-its-own-section("+wf+")", ev.Pos, !reread,
+							"a guarded field sampled in one section and written in a later one is looked at again in the section that writes it",
+							"the field "+wf+" was sampled in the critical section at "+c.Prog.Pos(p.Events[sm.sec].Pos)+", the lock was released, and the field is written here in a later section that has not looked at it again: what other goroutines stored in between is overwritten or duplicated (check-then-act split in two)", p)
+					}
+				}
+				if ev.Kind == core.KAssign && !ev.FieldInit && g.sec[i] >= 0 && ev.Rhs != nil {
+					if lv := identVar(ev.Lhs, ev.Frame); lv != nil && !lv.IsField() {
+						ast.Inspect(ev.Rhs, func(x ast.Node) bool {
+							if ex, ok := x.(ast.Expr); ok {
+								if fv := fieldVar(ex, ev.Frame); fv != nil && core.LockKindOf(fv.Type()) == core.NotLock {
+									sampledF[core.FieldName(fv)] = sample{g.sec[i], p.Events[g.sec[i]].Lock}
+								}
+							}
+							return true
+						})
+					}
+				}
 				switch ev.Kind {
 				case core.KAssign:
 					check(i, ev, ev.Rhs)
